@@ -182,3 +182,42 @@ Proof.
          [(0%nat, JOk 5%Z); (1%nat, JErr); (1%nat, JOk 7%Z)], 12%Z.
   repeat split; try reflexivity. exists 0%nat. simpl. auto.
 Qed.
+
+(* the threadpool's Done-before-setError order can lose the error of a failing job *)
+Lemma late_error_lost :
+  exists (tr : list (jevent Z * bool)) (a : Z),
+    (exists i l, In ((i, JErr), l) tr) /\
+    step_with_errors_late Z Z.add 0%Z true 2 [mkThr false 0%Z; mkThr false 0%Z] tr = SOk a.
+Proof.
+  exists [((0%nat, JOk 5%Z), false); ((1%nat, JErr), true)], 5%Z.
+  split; [exists 1%nat, true; simpl; auto|reflexivity].
+Qed.
+
+Lemma par_run_late_sticky A op e polls tr : forall p p' b,
+  par_run_late A op e polls tr p true = Some (p', b) -> b = true.
+Proof.
+  induction tr as [|[[i j] l] tr IH]; intros p p' b H; simpl in H.
+  - now inversion H.
+  - destruct polls; simpl in H.
+    + eapply IH; eauto.
+    + destruct j as [c|].
+      * destruct (upd A i (job_lazy A op e c) p) as [p1|]; [eapply IH; eauto|discriminate].
+      * destruct l; eapply IH; eauto.
+Qed.
+
+(* if at least one failing job stores its error in time, the step fails *)
+Lemma timely_error_propagates A op e polls tr : forall p err p' b,
+  (exists i, In ((i, JErr), false) tr) ->
+  par_run_late A op e polls tr p err = Some (p', b) -> b = true.
+Proof.
+  induction tr as [|[[i j] l] tr IH]; intros p err p' b [i0 Hin] H; [destruct Hin|].
+  simpl in H. destruct (polls && err) eqn:PE.
+  - apply andb_true_iff in PE. destruct PE as [_ E]. subst err. eapply par_run_late_sticky; eauto.
+  - destruct j as [c|].
+    + destruct Hin as [Hin|Hin]; [inversion Hin|].
+      destruct (upd A i (job_lazy A op e c) p) as [p1|]; [|discriminate].
+      eapply IH; eauto.
+    + destruct l.
+      * destruct Hin as [Hin|Hin]; [inversion Hin|]. eapply IH; eauto.
+      * eapply par_run_late_sticky; eauto.
+Qed.
